@@ -162,11 +162,15 @@ fn is_sub_arrangement(x: &Term, y: &Term) -> bool {
 }
 
 pub fn eval(rel: Rel, args: &[Term], nq: usize, seed_solution: Option<&[Term]>, ctx: &Ctx) -> CaseInfo {
+    eval_with(rel, args, nq, seed_solution, ctx, Limits { max_answers: 30, budget: 12_000 })
+}
+
+pub fn eval_with(rel: Rel, args: &[Term], nq: usize, seed_solution: Option<&[Term]>, ctx: &Ctx, lim: Limits) -> CaseInfo {
     let p = Program { nq, body: vec![Goal::Call(rel, args.to_vec())] };
     let mut info = CaseInfo::default();
     let desc = p.show();
     info.key = hash_str(&desc);
-    let out = run::run(&p, Mode::Bfs, Limits { max_answers: 30, budget: 12_000 });
+    let out = run::run(&p, Mode::Bfs, lim);
     if ctx.want_sample {
         info.sample = Some(json!({ "query": desc, "answers": run::show_answers(&out.answers), "end": format!("{:?}", out.end), "seed_solution": seed_solution.map(|g| g.iter().map(|t| show_term(t, 0)).collect::<Vec<_>>()) }));
     }
@@ -337,6 +341,150 @@ fn run_family(bytes: &[u8], ctx: &Ctx) -> CaseInfo {
     eval(rel, &args, nq, seed.as_deref(), ctx)
 }
 
+/// Long lists (up to 150, thorough 600 elements): ground mode, one argument fresh, or one
+/// element of a list replaced by a variable.
+fn run_long(bytes: &[u8], ctx: &Ctx) -> CaseInfo {
+    use crate::gen::scale;
+    const LONG: [Rel; 8] = [Rel::Member, Rel::Member1, Rel::Append, Rel::Rember, Rel::Distinct, Rel::Cons, Rel::First, Rel::Rest];
+    let mut s = Source::new(bytes);
+    let rel = LONG[s.below(LONG.len())];
+    let n = scale::size(&mut s, if ctx.tier == Tier::Thorough { 600 } else { 150 });
+    // the library's distinct takes seconds beyond a dozen elements
+    let n = if rel == Rel::Distinct { n.min(10) } else { n };
+    let mode = s.weighted(&[4, 4, 2, 2]);
+    let perturb = s.weighted(&[5, 2, 2]);
+    let (a, b) = (1 + s.below(5), s.below(3));
+    let pos = s.below(n);
+    let pos2 = s.below(n);
+    let cut = s.below(n + 1);
+    let which_arg = s.below(3);
+    let x = Term::Int(1 + s.below(3) as i64);
+    // element table: a residue pattern over {1, 2, 3}; for distinct: pairwise different
+    let mut el: Vec<Term> = if rel == Rel::Distinct { (0..n).map(|i| Term::Int(10 + ((i * 7 + b) % n.max(1)) as i64 + (i / n.max(1)) as i64 * 1000)).collect::<Vec<Term>>() } else { (0..n).map(|i| Term::Int(1 + ((i * a + b) % 3) as i64)).collect() };
+    if rel == Rel::Distinct {
+        // i*7 mod n is a permutation only if gcd(7, n) == 1; otherwise fall back to 10 + i
+        let mut seen = std::collections::BTreeSet::new();
+        if !el.iter().all(|t| seen.insert(t.clone())) {
+            el = (0..n).map(|i| Term::Int(10 + i as i64)).collect();
+        }
+    }
+    if rel == Rel::Distinct {
+        // some elements come from the universe the soundness check instantiates variables with
+        for (i, v) in [1i64, 2, 9].iter().enumerate() {
+            if i < el.len() {
+                el[i] = Term::Int(*v);
+            }
+        }
+    }
+    let mut g: Vec<Term> = match rel {
+        Rel::Member | Rel::Member1 => {
+            let mut l = el.clone();
+            l[pos] = x.clone();
+            vec![x.clone(), Term::list(l)]
+        }
+        Rel::Append => vec![Term::list(el[..cut].to_vec()), Term::list(el[cut..].to_vec()), Term::list(el.clone())],
+        Rel::Rember => {
+            let mut out = el.clone();
+            if let Some(p) = el.iter().position(|e| *e == x) {
+                out.remove(p);
+            }
+            vec![x.clone(), Term::list(el.clone()), Term::list(out)]
+        }
+        Rel::Distinct => vec![Term::list(el.clone())],
+        Rel::Cons => {
+            let mut o = vec![x.clone()];
+            o.extend(el.iter().cloned());
+            vec![x.clone(), Term::list(el.clone()), Term::list(o)]
+        }
+        Rel::First => vec![Term::list(el.clone()), el[0].clone()],
+        _ => vec![Term::list(el.clone()), Term::list(el[1..].to_vec())],
+    };
+    // negative seeds: change one element (often the last one) or drop the last element
+    if perturb > 0 {
+        let i = which_arg % g.len();
+        if let Some(items) = g[i].as_proper_list() {
+            let mut v: Vec<Term> = items.iter().map(|t| (*t).clone()).collect();
+            if !v.is_empty() {
+                if perturb == 1 {
+                    let k = if pos2 % 2 == 0 { v.len() - 1 } else { pos2 % v.len() };
+                    v[k] = if rel == Rel::Distinct { v[(k + 1) % v.len()].clone() } else { Term::Int(9) };
+                } else {
+                    v.pop();
+                }
+                g[i] = Term::list(v);
+            }
+        } else {
+            g[i] = Term::Int(9);
+        }
+    }
+    let is_solution = listrel::holds(rel, &g) == Some(true);
+    let mut binds: Vec<Term> = vec![];
+    let args: Vec<Term> = match mode {
+        0 => g.clone(),
+        1 => {
+            // one whole argument becomes a fresh query variable - but only if a long ground list
+            // remains among the others (otherwise nothing about the case is long any more, and
+            // the relation may enumerate for ever)
+            let len_of = |t: &Term| t.as_proper_list().map(|l| l.len()).unwrap_or(0);
+            let candidates: Vec<usize> = (0..g.len()).filter(|i| g.iter().enumerate().any(|(j, t)| j != *i && len_of(t) * 2 >= n.max(2))).collect();
+            if candidates.is_empty() {
+                g.clone()
+            } else {
+                let i = candidates[which_arg % candidates.len()];
+                g.iter().enumerate().map(|(j, t)| if j == i { binds.push(t.clone()); Term::Var(0) } else { t.clone() }).collect()
+            }
+        }
+        3 => {
+            // a list argument is known only up to some cell: its tail is a variable
+            let i = which_arg % g.len();
+            g.iter()
+                .enumerate()
+                .map(|(j, t)| match (j == i, t.as_proper_list()) {
+                    (true, Some(items)) if !items.is_empty() => {
+                        let v: Vec<Term> = items.iter().map(|t| (*t).clone()).collect();
+                        let k = if pos2 % 3 == 0 { v.len() } else { 1 + pos2 % v.len() };
+                        binds.push(Term::list(v[k..].to_vec()));
+                        Term::improper(v[..k].to_vec(), Term::Var(0))
+                    }
+                    _ => t.clone(),
+                })
+                .collect()
+        }
+        _ => {
+            // one element of a list argument becomes a variable
+            let i = which_arg % g.len();
+            g.iter()
+                .enumerate()
+                .map(|(j, t)| match (j == i, t.as_proper_list()) {
+                    (true, Some(items)) if !items.is_empty() => {
+                        let mut v: Vec<Term> = items.iter().map(|t| (*t).clone()).collect();
+                        let k = pos2 % v.len();
+                        binds.push(v[k].clone());
+                        v[k] = Term::Var(0);
+                        Term::list(v)
+                    }
+                    _ => t.clone(),
+                })
+                .collect()
+        }
+    };
+    let nq = binds.len();
+    let seed = if is_solution { Some(binds.clone()) } else { None };
+    if std::env::var("PVH_SHOW").is_ok() {
+        eprintln!("SHOW {} n={} mode={} {}", rel.name(), n, mode, Program { nq, body: vec![Goal::Call(rel, args.clone())] }.show().chars().take(200).collect::<String>());
+    }
+    // ground mode is always finite; with a fresh argument the relation may enumerate for ever
+    let lim = if nq == 0 { Limits { max_answers: 2000, budget: 2_000_000 } } else if mode == 3 { Limits { max_answers: 40, budget: 400_000 } } else { Limits { max_answers: 700, budget: 400_000 } };
+    let t0 = std::time::Instant::now();
+    let mut info = eval_with(rel, &args, nq, seed.as_deref(), ctx, lim);
+    if std::env::var("PVH_SLOW").is_ok() && t0.elapsed().as_millis() > 1000 {
+        eprintln!("SLOW {:?} {} n={} mode={} {}", t0.elapsed(), rel.name(), n, mode, Program { nq, body: vec![Goal::Call(rel, args.clone())] }.show().chars().take(120).collect::<String>());
+    }
+    truncate_sample(&mut info, 300);
+    info.class(if n >= 256 { "length>=256" } else if n >= 64 { "length>=64" } else if n >= 16 { "length>=16" } else { "length<16" });
+    info
+}
+
 fn witness_permute() -> Option<String> {
     let strict = Ctx { tier: Tier::Quick, strict: true, want_sample: false };
     let i = eval(Rel::Permute, &[Term::ints(&[1, 2]), Term::Var(0)], 1, None, &strict);
@@ -455,7 +603,10 @@ pub fn def() -> PropertyDef {
         id: "C24",
         rule: "solution-first generation: a ground argument tuple satisfying the relation is constructed for one of the ten relations (lists of length <= 4 over {1,2,3}, repeated elements frequent), perturbed with weight 0.27 (negative seeds), then abstracted into a query: each argument stays ground, becomes a fresh query variable, or becomes partially ground (some elements -> variables, sometimes shared, tail -> variable). Oracle (Vec definitions in model/listrel.rs): every ground instance of every answer over a 5-element universe satisfies the definition; ground mode: has an answer <=> definition holds, member yields one answer per matching position, member1 exactly one; finite modes (search exhausted): the seed solution is covered by some answer; member/member1 with a ground list and fresh element yield exactly the documented answer multisets; infinite modes: the first 30 answers are sound. Non-trivial = a non-ground mode with >=2 answers, or repeated elements; distinct = hash of the printed query",
         assumptions: vec!["list arguments are proper lists (instances outside that domain are not judged)", "completeness is asserted only when the search was exhausted within the step budget"],
-        families: vec![Family { name: "relations", max_len: 96, quick: 120_000, thorough: 2_500_000, run: run_family }],
+        families: vec![
+            Family { name: "relations", max_len: 96, quick: 120_000, thorough: 2_500_000, run: run_family },
+            Family { name: "long-lists", max_len: 32, quick: 20_000, thorough: 500_000, run: run_long },
+        ],
         fixed: vec![],
         witnesses: vec![Witness { finding: FINDING_PERMUTE, run: witness_permute }],
         exhaustive: Some(exhaustive),
